@@ -491,6 +491,14 @@ def check_pack(ctx, ci, bits='derive'):
         if swapped:
             ctx.violation(rule, fi, '%s: %s' % (label, canon(swapped[0])), 'a member whose value is 0 is written as %s: its slice does not hold the value modulo 2^width' % canon(swapped[0].values[-1]), merges[0].lineno, clause='d', witness=True)
             continue
+        # the bits written chosen by the truth of the value: every bit of the value decides them,
+        # so a value that is 0 modulo 2^width but not 0 (2 for a flag) sets bits
+        truthy = [b for b in ast.walk(v) if isinstance(b, ast.IfExp) and (canon(b.test) == VAL or (isinstance(b.test, ast.UnaryOp) and isinstance(b.test.op, ast.Not) and canon(b.test.operand) == VAL)
+                                                                            or canon(b.test) in ('(%s != 0)' % VAL, 'bool(%s)' % VAL, '(%s == 0)' % VAL))]
+        truthy_guard = [g for g in gt if g in (VAL, 'not ' + VAL, '(%s != 0)' % VAL, '(%s == 0)' % VAL, 'bool(%s)' % VAL, 'not bool(%s)' % VAL)]
+        if truthy or truthy_guard:
+            ctx.violation(rule, fi, '%s: %s' % (label, canon(truthy[0])[:100] if truthy else 'path [%s]' % truthy_guard[0]), 'the bits written are chosen by whether the value is non-zero, not by the value modulo 2^width: a value such as 2 for a one-bit member sets the bit although 2 mod 2 is 0', merges[0].lineno, clause='d', witness=True)
+            continue
         try:
             if bits is None:
                 raise Undecided('the shifts and masks of Bits._compile were not identified')
@@ -595,6 +603,48 @@ def check_bits_strategies(ctx, ci):
         ctx.holds('R8-confinement', comp, 'Bits._compile installs no other pack / unpack', 'every bit field runs Bits.pack / Bits.unpack', comp.node.lineno, clause='d')
 
 
+def check_descriptions_keep_the_field(ctx, rule='R8-bits-run'):
+    """Round 7.  (a0') a run of bit fields ends at the next entry of the field table that is not a
+    bit field.  Every declared field contributes itself to that table (Field._describe_yourself:
+    [moves..., (name, self)]); an override may add entries after it (the fields of an embedded
+    packet) but never takes entries of the base description away: a field that vanishes from the
+    table no longer separates the bit fields declared before it from those that follow"""
+    repo = ctx.repo
+    n = 0
+    for ci in repo.field_classes():
+        fi = ci.methods.get('_describe_yourself')
+        if fi is None or ci.name == 'Field':
+            continue
+        n += 1
+        base = [x.targets[0].id for x in ast.walk(fi.node) if isinstance(x, ast.Assign) and len(x.targets) == 1 and isinstance(x.targets[0], ast.Name)
+                and isinstance(x.value, ast.Call) and isinstance(x.value.func, ast.Attribute) and x.value.func.attr == '_describe_yourself']
+        st = '%s._describe_yourself' % ci.name
+        if not base:
+            ctx.undecided(rule, fi, st, 'the override does not start from the base description', fi.node.lineno, clause='a')
+            continue
+        D_ = base[0]
+        bad = None
+        for x in ast.walk(fi.node):
+            if isinstance(x, ast.Subscript) and isinstance(x.ctx, (ast.Store, ast.Del)) and canon(x.value) == D_:
+                bad = x
+            elif isinstance(x, ast.Call) and isinstance(x.func, ast.Attribute) and canon(x.func.value) == D_ and x.func.attr in ('pop', 'remove', 'clear', 'reverse', 'sort'):
+                bad = x
+            elif isinstance(x, ast.Assign) and any(isinstance(t, ast.Name) and t.id == D_ for t in x.targets) and not (isinstance(x.value, ast.Call) and isinstance(x.value.func, ast.Attribute)
+                                                                                                               and x.value.func.attr == '_describe_yourself'):
+                # rebinding: fine when the new list starts with the old one (desc = desc + [...])
+                v = x.value
+                if not (isinstance(v, ast.BinOp) and isinstance(v.op, ast.Add) and canon(v.left) == D_):
+                    bad = x
+        rets = [r for r in ast.walk(fi.node) if isinstance(r, ast.Return) and r.value is not None]
+        if bad is not None:
+            ctx.violation(rule, fi, '%s: %s' % (st, stmt_text(bad)[:100]), 'entries of the base description ([moves..., (name, self)]) are taken away: the field itself no longer stands in the field table, so bit fields declared before it and bit fields that follow it (its embedded packet\'s) are merged into one run', getattr(bad, 'lineno', fi.node.lineno), clause='a', witness=True)
+        elif all(canon(r.value) == D_ or (isinstance(r.value, ast.BinOp) and isinstance(r.value.op, ast.Add) and canon(r.value.left) == D_) for r in rets) and rets:
+            ctx.holds(rule, fi, st, 'the base description is kept; entries are only added after it', fi.node.lineno, clause='a')
+        else:
+            ctx.undecided(rule, fi, st, 'cannot see that what is returned starts with the base description', fi.node.lineno, clause='a')
+    ctx.unit('describe_overrides', n)
+
+
 def check_declaration_order(ctx, rule='R8-bits-run'):
     """Round 6.  (a0) the run a bit field belongs to, and its place in it, is its place in the
     class body: the class builder keeps the fields in the order of the class namespace
@@ -632,6 +682,7 @@ def check_declaration_order(ctx, rule='R8-bits-run'):
 def check(ctx):
     repo = ctx.repo
     check_declaration_order(ctx)
+    check_descriptions_keep_the_field(ctx)
     ci = repo.cls('Bits')
     _find_run_masks(ci)
     for m in ('_compile', 'init', 'unpack', 'pack'):
